@@ -274,29 +274,6 @@ Fixpoint canon (v : jvalue) : jres ustring :=
       end
   end.
 
-(* the value with the members of every object sorted (what parsing the
-   canonical text gives back); None where canon raises UnicodeEncodeError      *)
-Fixpoint sort_deep (v : jvalue) : option jvalue :=
-  match v with
-  | JArr l =>
-      option_map JArr
-        ((fix go (l : list jvalue) : option (list jvalue) :=
-            match l with
-            | [] => Some []
-            | x :: r => match sort_deep x, go r with Some x', Some r' => Some (x' :: r') | _, _ => None end
-            end) l)
-  | JObj m =>
-      match (fix go (m : list (ustring * jvalue)) : option (list (ustring * jvalue)) :=
-               match m with
-               | [] => Some []
-               | (k, x) :: r => match sort_deep x, go r with Some x', Some r' => Some ((k, x') :: r') | _, _ => None end
-               end) m with
-      | None => None
-      | Some m' => option_map JObj (sort_members m')
-      end
-  | _ => Some v
-  end.
-
 (* ---- rendering for the case files ----------------------------------------- *)
 Definition show_jerr (e : jerr) : string :=
   match e with
